@@ -182,6 +182,18 @@ def validate_taxonomy_tree(
             "tree['hierarchy'] lists a level more than once:\n"
             f"{hierarchy}")
 
+    # the readable names of the levels label the columns of the
+    # CSV output: two levels with one readable name would share,
+    # and overwrite, each other's columns
+    if 'hierarchy_mapper' in taxonomy_tree:
+        level_mapper = taxonomy_tree['hierarchy_mapper']
+        readable = [level_mapper[level] if level in level_mapper else level
+                    for level in hierarchy]
+        if len(set(readable)) != len(readable):
+            raise RuntimeError(
+                "tree['hierarchy_mapper'] gives two levels "
+                f"the same name:\n{readable}")
+
     expected_keys = set(hierarchy)
     expected_keys.add('hierarchy')
     bad_keys = {'metadata', 'name_mapper', 'hierarchy_mapper'}
